@@ -272,7 +272,7 @@ impl Prop for C09 {
         "C09"
     }
     fn cases(&self) -> (u64, u64) {
-        (100_000, 2_000_000)
+        (400_000, 2_000_000)
     }
     fn rule(&self) -> &'static str {
         "choice bytes -> level with 0-4 named fields and 0-3 positionals of every strictness \
